@@ -35,6 +35,10 @@ def run(ctx):
     ctx.do(rule_forward)
     ctx.do(rule_version_in_scope)
     ctx.do(rule_version_bases)
+    # content handed over WITH a version named is stored as parsed under that version: the store keeps every addition (C11's
+    # clause) -- an early return for "this modified time is there already" drops the object the named version produced
+    from . import C11 as _C11
+    ctx.do_as(_C11.rule_all_versions_kept, {"C11.all-versions-kept": "C14.named-version-is-what-is-stored"})
     ctx.do(rule_version_constants)
     ctx.do(rule_only_21_mechanisms)
     ctx.do(rule_detect)
@@ -293,8 +297,7 @@ def rule_version_constants(ctx, rule_id="C14.version-constants"):
             if (fi.id, t.func.id) in VERSION_CONSTANT_OK:
                 run.ok(rule_id, c, VERSION_CONSTANT_OK[(fi.id, t.func.id)])
                 continue
-            guarded = any(("_STIXBase20" in norm(tt) or "_STIXBase21" in norm(tt) or "spec_version" in norm(tt) or "stix_version" in norm(tt)
-                           or "version ==" in norm(tt)) for tt, _pol, _ in guard_chain(call))
+            guarded = any(_version_test(norm(tt)) for tt, _pol, _ in guard_chain(call))
             run.check(guarded, rule_id, c,
                       "%s serves both spec versions but applies the %s rules (%s) to every object: a %s object is then judged by "
                       "the other version's rules (e.g. a STIX 2.0 object with an unknown property and a 'toplevel-property-extension' "
@@ -314,8 +317,44 @@ ONLY_21_OK = {
 
 
 def _version_test(txt):
-    return any(m in txt for m in ("_STIXBase20", "_STIXBase21", "spec_version", "stix_version", "version ==", "version !=",
-                                  "version in", "version not in"))
+    """is the (normalised) test text a test of the VERSION IN FORCE?  isinstance against a version marker class, or a comparison
+    of a version-valued expression (a name / attribute / .get('spec_version') called version, spec_version, stix_version) with
+    version constants.  A membership test of the STRING 'spec_version' in a property table is not one: the 2.0 bundle has a
+    spec_version property."""
+    try:
+        tree = ast.parse(txt, mode="eval").body
+    except SyntaxError:
+        return any(m in txt for m in ("_STIXBase20", "_STIXBase21"))
+
+    def version_valued(e):
+        if isinstance(e, ast.Name):
+            return e.id in ("version", "spec_version", "stix_version", "ver")
+        if isinstance(e, ast.Attribute):
+            return e.attr in ("version", "spec_version", "stix_version", "_spec_version")
+        if isinstance(e, ast.Call) and isinstance(e.func, ast.Attribute) and e.func.attr == "get" and e.args \
+                and isinstance(e.args[0], ast.Constant) and e.args[0].value == "spec_version":
+            return True
+        if isinstance(e, ast.Subscript) and isinstance(e.slice, ast.Constant) and e.slice.value == "spec_version":
+            return True
+        if isinstance(e, ast.Call) and getattr(e.func, "id", getattr(e.func, "attr", "")) in ("detect_spec_version", "_get_stix_version"):
+            return True
+        return False
+
+    def version_consts(e):
+        if isinstance(e, ast.Constant):
+            return e.value in ("2.0", "2.1")
+        if isinstance(e, (ast.Tuple, ast.List, ast.Set)):
+            return bool(e.elts) and all(version_consts(x) for x in e.elts)
+        return isinstance(e, ast.Name) and e.id in ("DEFAULT_VERSION",)
+    for x in ast.walk(tree):
+        if isinstance(x, ast.Call) and getattr(x.func, "id", "") == "isinstance" and len(x.args) == 2 and any(
+                m in ast.unparse(x.args[1]) for m in ("_STIXBase20", "_STIXBase21")):
+            return True
+        if isinstance(x, ast.Compare) and len(x.ops) == 1:
+            l_, r_ = x.left, x.comparators[0]
+            if (version_valued(l_) and (version_consts(r_) or version_valued(r_))) or (version_valued(r_) and version_consts(l_)):
+                return True
+    return False
 
 
 def rule_only_21_mechanisms(ctx, rule_id="C14.version-constants"):
